@@ -640,7 +640,7 @@ func bxvBoolCases() []bxvCase {
 	for _, a := range atoms {
 		out = append(out, bxvCase{Expr: "not " + a, Data: d}, bxvCase{Expr: "not not " + a, Data: d}, bxvCase{Expr: "not (" + a + ")", Data: d})
 		for _, b := range atoms {
-			for _, f := range []string{"%s and %s", "%s or %s", "not %s and %s", "not %s or %s", "%s and not %s", "%s or not %s", "not (%s and %s)", "not (%s or %s)", "(not %s) or (not %s)", "(not %s) and (not %s)"} {
+			for _, f := range []string{"%s and %s", "%s or %s", "not %s and %s", "not %s or %s", "%s and not %s", "%s or not %s", "not (%s and %s)", "not (%s or %s)", "(not %s) or (not %s)", "(not %s) and (not %s)", "not (%s and not %s)", "not (%s or not %s)", "not (not %s and %s)", "not (not %s or not %s)", "not (%s and not (%s))"} {
 				out = append(out, bxvCase{Expr: fmt.Sprintf(f, a, b), Data: d})
 			}
 			for _, c := range atoms[:3] {
@@ -949,6 +949,13 @@ func bxvConcurrent(fails *[]bxvFailure) int {
 		big = append(big, string(rune('a'+i)))
 	}
 	d := map[string]interface{}{"S": "abc", "L": []string{"a", "b"}, "A": map[string]interface{}{"B": map[string]interface{}{"C": big, "M": map[string]int{"p": 1, "q": 2, "r": 3}}}}
+	// a list far longer than any table an implementation might pre-size
+	long := make([]int, 3000)
+	long[2999] = -1
+	d["Long"] = long
+	// (expected outcome known by construction: evaluating it once sequentially first would warm any lazily filled shared table)
+	knownTrue := map[string]bool{"any Long as v { v == -1 }": true, "all Long as i, v { v == 0 or i == 2999 }": true}
+	exprs = append([]string{"any Long as v { v == -1 }", "all Long as i, v { v == 0 or i == 2999 }"}, exprs...)
 	n := 0
 	// every expression under several option sets (the option list an evaluator
 	// keeps is shared by all its calls too), and different data per goroutine
@@ -970,6 +977,9 @@ func bxvConcurrent(fails *[]bxvFailure) int {
 			continue
 		}
 		want, werr := func() (bool, error) {
+			if knownTrue[e] && opts == nil {
+				return true, nil
+			}
 			ev2, _ := CreateEvaluator(e, opts...)
 			return ev2.Evaluate(d)
 		}()
